@@ -309,8 +309,8 @@ def raises_in_branch(cfg, test_node, label="t"):
         while cur is not None and seen < 5:
             if cur.kind == "stmt" and isinstance(cur.ast, ast.Raise):
                 return cur
-            if cur.kind == "test" and cur.stmt is test_node.stmt:
-                # a further conjunct of the same condition: follow it when one side raises
+            if cur.kind == "test":
+                # a further conjunct of the same condition, or a directly nested `if`: follow it when one side raises
                 for l2 in ("t", "f"):
                     r = raises_in_branch(cfg, cur, l2) if seen < 4 else None
                     if r is not None:
